@@ -41,6 +41,9 @@ def mkmodule(name: str = "module", **attrs: Any) -> Obj:
     m = Obj("torch.nn.Module", term=None)
     m.attrs.update({"forward": O(f"{name}.forward"), "_children": [], "__module__": "user_code.models", **attrs})
     m.attrs["_label"] = name
+    # its class, as type(module) shows it: a user-defined nn.Module subclass with a forward of its own
+    fn_ = Obj("function", attrs={"__module__": "user_code.models", "__name__": "forward", "__qualname__": "Net.forward", "_callable": True}, open_attrs=False)
+    m.attrs["__class__"] = Obj("type", attrs={"__module__": "user_code.models", "__name__": "Net", "__qualname__": "Net", "forward": fn_}, term=T("param", ("user_code.models.Net",)))
     return m
 
 
@@ -61,15 +64,22 @@ def check_root_entry(report: Report, repo: Repo, rule: str) -> None:
     form is traced.)"""
     opq = lambda f: isinstance(f, FuncV) and f.qualname in OPAQUE_HELPERS
     cons = f"{TU}::apply_transform::dynamo-entry"
-    for sname, cls_name, modname in (
-        ("root is a user-defined module", "user_code.models.Net", "user_code.models"),
-        ("root is torch.nn.Sequential", "torch.nn.modules.container.Sequential", "torch.nn.modules.container"),
-        ("root is torch.nn.Linear", "torch.nn.modules.linear.Linear", "torch.nn.modules.linear"),
+    for sname, cls_name, modname, fwd_home in (
+        ("root is a user-defined module", "user_code.models.Net", "user_code.models", "user_code.models"),
+        ("root is torch.nn.Sequential", "torch.nn.modules.container.Sequential", "torch.nn.modules.container", "torch.nn.modules.container"),
+        ("root is torch.nn.Linear", "torch.nn.modules.linear.Linear", "torch.nn.modules.linear", "torch.nn.modules.linear"),
+        # `class Block(nn.Sequential): pass` -- a user class whose forward is still torch.nn's
+        ("root is a user subclass of nn.Sequential inheriting its forward", "user_code.models.Block", "user_code.models", "torch.nn.modules.container"),
+        ("root is a user subclass of nn.Linear inheriting its forward", "user_code.models.MyLinear", "user_code.models", "torch.nn.modules.linear"),
+        ("root is a user subclass of nn.Linear with its own forward", "user_code.models.FancyLinear", "user_code.models", "user_code.models"),
     ):
         it = Interp(repo, opaque=opq)
         at = it.get_global(TU, "apply_transform")
         m = Obj(cls_name, term=None)
         m.attrs.update({"forward": O("m.forward"), "_children": [], "__module__": modname, "_label": "m"})
+        # the class as seen through type(module): where the class and where its forward are defined
+        fn_ = Obj("function", attrs={"__module__": fwd_home, "__name__": "forward", "__qualname__": cls_name.rsplit(".", 1)[-1] + ".forward", "_callable": True}, open_attrs=False)
+        m.attrs["__class__"] = Obj("type", attrs={"__module__": modname, "__name__": cls_name.rsplit(".", 1)[-1], "__qualname__": cls_name.rsplit(".", 1)[-1], "forward": fn_}, term=T("param", (cls_name,)))
         try:
             res = it.call_function(at, [m, O("backend")], {})
             fwd = res.attrs.get("forward") if isinstance(res, Obj) else None
@@ -83,7 +93,7 @@ def check_root_entry(report: Report, repo: Repo, rule: str) -> None:
             report.add(rule, cons, False, f"[{sname}] the first call must hand exactly one callable to torch._dynamo.optimize(backend)", len(applied), 1)
             continue
         target = applied[0]["args"][0]
-        is_nn = modname.startswith(("torch.nn.", "torch.ao."))
+        is_nn = fwd_home.startswith(("torch.nn.", "torch.ao."))  # what Dynamo looks at is the code object of forward
         if is_nn:
             ok = isinstance(target, FuncV) and target.module.name.startswith("unit_scaling")
             report.add(rule, cons, ok, f"[{sname}] TorchDynamo skips an outermost frame that lives in torch.nn: the root must be entered through a function of the library (else nothing is captured and the transform silently does nothing)", fmt(target)[:120], "a function defined in unit_scaling that calls the module")
@@ -183,6 +193,33 @@ def check(report: Report, repo: Repo) -> None:
 
     check_root_entry(report, repo, "R7-dynamo-entry")
 
+    # ------------------------------------------------ R1 no sharing between the input and the working copy
+    # (a module with a trainable and a frozen parameter and a buffer-like tensor attribute: whatever the copy
+    # holds must be its own object -- a later in-place change of the result must not reach the input)
+    def mkp(label: str, trainable: bool) -> Obj:
+        return Obj("torch.nn.parameter.Parameter", attrs={"requires_grad": trainable, "data": P(f"{label}.data", None), "_label": label}, open_attrs=False)
+
+    for sname, flags in (("trainable and frozen parameters", (True, False)), ("all parameters frozen", (False, False)), ("all parameters trainable", (True, True))):
+        pw, pt = mkp("w", flags[0]), mkp("table", flags[1])
+        child = mkmodule("child", _params=[("table", pt)], table=pt)
+        m = mkmodule("m", _params=[("w", pw)], w=pw, running_stat=P("running_stat", None))
+        m.attrs["_children"] = [("child", child)]
+        m.attrs["child"] = child
+        it.events = []
+        try:
+            res = it.call_function(at, [m, bnew], {})
+        except Unsupported as ex:
+            report.add("R1-copy-before-write", f"{cons}::no-sharing", None, f"[{sname}] outside fragment: {ex}")
+            continue
+        if not isinstance(res, Obj) or res is m:
+            report.add("R1-copy-before-write", f"{cons}::no-sharing", False, f"[{sname}] returns a new module object", fmt(res), "a deep copy")
+            continue
+        rc = res.attrs.get("child")
+        pairs = [("w", res.attrs.get("w"), pw), ("child", rc, child), ("child.table", rc.attrs.get("table") if isinstance(rc, Obj) else None, pt), ("running_stat", res.attrs.get("running_stat"), m.attrs["running_stat"])]
+        shared = [nm for nm, new_, old_ in pairs if new_ is old_]
+        missing = [nm for nm, new_, old_ in pairs if new_ is None]
+        report.add("R1-copy-before-write", f"{cons}::no-sharing", not shared and not missing, f"[{sname}] parameters (trainable or frozen), sub-modules and tensors of the result are the copy's own objects, none shared with the input", {"shared": shared, "missing": missing}, {"shared": [], "missing": []})
+
     # ------------------------------------------------ R2 composition order
     cb = it.get_global(TU, "_compose_backends")
     b1, b2, b3 = O("b1"), O("b2"), O("b3")
@@ -255,11 +292,14 @@ def check(report: Report, repo: Repo) -> None:
             u, q = added.get("u") or u, added.get("q") or q
     except Unsupported as ex:
         report.add("R4-chains", f"{US}::unit_scale+simulate_format", None, f"outside fragment: {ex}")
+        chains_unsupported = str(ex)
 
     # ------------------------------------------------ R3 name coupling / reorder helper
     ob = it.get_global(US, "_order_backends")
     try:
-        if u is None or q is None:
+        if (u is None or q is None) and "chains_unsupported" in dir():
+            report.add("R3-reorder", f"{US}::_order_backends", None, f"the backends installed by unit_scale / simulate_format could not be obtained (outside fragment: {chains_unsupported})")
+        elif u is None or q is None:
             report.add("R3-reorder", f"{US}::_order_backends", False, "could not identify the backends installed by unit_scale / simulate_format")
         else:
             other = it.call_function(it.get_global(TU, "_compose_backends"), [[b1]], {})
